@@ -8,6 +8,7 @@ import (
 	"flag"
 	"fmt"
 	"os"
+	"os/exec"
 	"path/filepath"
 	"sort"
 	"strconv"
@@ -27,6 +28,7 @@ type PropEntry struct {
 	Exclude        map[string][]string `json:"exclude,omitempty"` // unit -> obligation-name substrings owned by another property
 	MinObligations int                 `json:"min_obligations"`
 	CheckLocks     bool                `json:"check_locks,omitempty"`
+	LeanLemmas     []string            `json:"lean_lemmas,omitempty"` // files under /verif checked with `lean` in the thorough tier (induction lemmas the SMT solvers cannot do)
 	NoFrames       bool                `json:"no_frames,omitempty"`
 	Assumptions    []string            `json:"assumptions,omitempty"`
 	Enumerations   []string            `json:"enumerations,omitempty"`
@@ -221,7 +223,8 @@ func runProperty(prop string, pe *PropEntry, kf *KnownFindings, repo, vd string,
 	var units []*UnitResult
 	byShort := map[string]*FuncSpec{}
 	for k, sp := range db.Funcs {
-		if !sp.Extern {
+		if !sp.Extern || w.ResolveSpecFunc(sp) != nil {
+			// library contracts are assumptions, except those whose function has a body and can be verified as a unit
 			byShort[unitShortName(k)] = sp
 		}
 	}
@@ -402,6 +405,22 @@ func runProperty(prop string, pe *PropEntry, kf *KnownFindings, repo, vd string,
 	if len(enumDone) > 0 {
 		res.Extra["enumerated_side_conditions"] = enumDone
 	}
+	// side lemmas proved in Lean (thorough tier): the file must still check
+	if tier == "thorough" {
+		var done []map[string]interface{}
+		for _, lf := range pe.LeanLemmas {
+			cmd := exec.Command("lean", filepath.Join(vd, lf))
+			out, err := cmd.CombinedOutput()
+			ok := err == nil
+			done = append(done, map[string]interface{}{"file": lf, "checked": ok, "output": firstLine(string(out))})
+			if !ok {
+				fail("lean:"+lf, "the Lean proof of a side lemma no longer checks: "+firstLine(string(out)))
+			}
+		}
+		if len(done) > 0 {
+			res.Extra["lean_side_lemmas"] = done
+		}
+	}
 	// callee contracts the units relied on: verified in this run (the callee is one of the units), trusted (stated, body not
 	// verified anywhere), assumed (library model), or verified under another property's check
 	{
@@ -429,12 +448,14 @@ func runProperty(prop string, pe *PropEntry, kf *KnownFindings, repo, vd string,
 					st = "verified by the check of " + strings.Join(owners, ", ") + " (not re-verified in this run)"
 				}
 				switch {
+				case unitKeys[k]:
+					st = "verified in this run"
+				case sp.Extern && len(allUnitOwners[unitShortName(k)]) > 0:
+					st = "library function verified by the check of " + strings.Join(allUnitOwners[unitShortName(k)], ", ")
 				case sp.Extern:
 					st = "assumed (library model in /verif/models)"
 				case sp.Trusted:
 					st = "TRUSTED: stated, the body is not verified by any check"
-				case unitKeys[k]:
-					st = "verified in this run"
 				}
 				list = append(list, cc{unitShortName(k), st})
 			}
